@@ -13,7 +13,7 @@ func init() { register("C01", checkC01) }
 
 func checkC01(c *Ctx, r *Report, tier string) {
 	x := newIdx(c)
-	r.Rule("C01.R1", "tombstone filter on every candidate flow: every use of the key of a `range` over an edge set is the liveness test itself or is dominated by the live successor of such a test on the same key (exception: a key collected only to be unlinked/re-pruned)", 8)
+	r.Rule("C01.R1", "tombstone filter on every candidate flow: every use of the key of a `range` over an edge set is the liveness test itself or is dominated by the live successor of such a test on the same key (exception: a key collected only to be unlinked/re-pruned)", 4)
 	r.Rule("C01.R2", "entry point hand-over: on the branch where the loaded entry point equals the removed vertex every path to return passes a CAS/Store into the entry point", 1)
 	r.Rule("C01.R3", "score/vertex pairing: NewPriorityQueueItem(p, v) has p = Distance(query, v.vector) for the same SSA value v (or p is the stored edge weight of v in the same map iteration); Search fills Id/Metadata/Score of one slot from one popped item", 4)
 	r.Rule("C01.R4", "order and bound: SearchResult.Less is a strict < on Score of i vs j; every success return of a search function is a sorted slice truncated to min(k,len), a delegation, or a min(k,·)-sized slice filled from the far end of a max-queue", 5)
